@@ -284,6 +284,8 @@ def gen_group(draw, g):
     opts = ["plain", "plain", "plain", "anon", "lenpair", "rebuildpair", "condpair", "computed", "default", "checked", "nested"]
     if g.has("stopif"):
         opts.append("stopif")
+    if g.params and g.has("switch") and not g.ctxfree:
+        opts += ["paramcond", "paramcond"]
     if g.ctxfree:
         opts = ["plain", "plain", "anon", "default", "nested"]
     if g.depth <= 0:
@@ -347,6 +349,20 @@ def gen_group(draw, g):
             op = draw(st.sampled_from(["==", "!=", "<", ">="])) if form == "itecmp" else "=="
             return [[t, tspec], [v, ["ite", ["bin", op, ref_ast(0, t), ["const", draw(st.integers(0, 3))]], body(), body()]]]
         return [[t, ["flag"]]]
+    if o == "paramcond":
+        pname = draw(st.sampled_from(sorted(g.params)))
+        pref = ["this", ["_params", pname], draw(st.sampled_from(["attr", "item"]))]
+        body = lambda: gen_spec(draw, g.child(tail=False))  # noqa
+        form = draw(st.sampled_from(["switch", "ite", "if", "itecmp"]))
+        v = g.fresh("v")
+        if form == "switch":
+            keys = draw(st.lists(st.integers(0, 5), min_size=1, max_size=3, unique=True))
+            return [[v, ["switch", pref, [[kk, body()] for kk in keys], body() if draw(st.booleans()) else None]]]
+        if form == "if":
+            return [[v, ["if", pref, body()]]]
+        if form == "ite":
+            return [[v, ["ite", pref, body(), body()]]]
+        return [[v, ["ite", ["bin", draw(st.sampled_from(["==", "<", ">="])), pref, ["const", draw(st.integers(0, 5))]], body(), body()]]]
     if o == "computed" and g.has("computed"):
         if g.ints:
             l1, n1, _ = draw(st.sampled_from(g.ints))
@@ -507,6 +523,12 @@ def gen_bitstruct(draw, g):
     n = draw(st.integers(1, 5))
     members = []
     total = 0
+    if g.params and not g.ctxfree and draw(st.booleans()):
+        pname = draw(st.sampled_from(sorted(g.params)))
+        pref = ["this", ["_params", pname], "attr"]
+        # two fields whose widths depend on the keyword parameter and always add up to 8 bits (parameter is 0..5)
+        members.append([g.fresh("b"), ["bits", ["bin", "+", pref, ["const", 1]], draw(st.booleans()), False]])
+        members.append([g.fresh("b"), ["bits", ["bin", "-", ["const", 7], pref], False, False]])
     for i in range(n):
         o = draw(st.sampled_from(["bits", "bits", "bits", "flag", "padding", "alias", "bytewise", "array"]))
         if o == "bits":
